@@ -59,7 +59,7 @@ Lemma taptree_len v c : canon_taptree v = POk c -> length c = length v.
 Proof. unfold PsetValues.canon_taptree, taptree_node. destruct (taptree_items maxvec (S (length v)) v) as [items|] eqn:T; [|discriminate].
   destruct (run Hleaf Hbranch items []) as [[|[n|] [|? ?]]|] eqn:R; try discriminate. intros H; inversion H; subst.
   destruct (builder_complete Hleaf Hbranch items _ R eq_refl) as (t & _ & -> & E & _). inversion E; subst n.
-  rewrite taptree_ser_len, (taptree_items_len _ _ _ T), node_of_leaves, map_rev, map_rev, list_sum_rev, (leaf_paths_scripts t 0). reflexivity. Qed.
+  rewrite taptree_ser_len, (taptree_items_len _ _ _ T), node_of_leaves, (leaf_paths_scripts t 0). reflexivity. Qed.
 
 (* ---- the two laws ---- *)
 Theorem vcanon_size t k v c : vcanon t k v = POk c -> (length c <= length v)%nat.
